@@ -16,6 +16,7 @@ func cmdDelims(cmd *sx.Sexp) (delims, string) {
 }
 
 const itemErrorCode = 0
+const itemFieldCode = 6
 
 func init() {
 	// (lex L R LC RC src): the item stream of the real lexer
@@ -29,6 +30,15 @@ func init() {
 			fail = "lexer panicked"
 		}
 		out := sx.L(sx.A(head))
+		// what the parser assumes of every item (hypothesis WfItem of Props/C02P.lean)
+		for _, t := range toks {
+			if t.Pos < 0 || t.Pos > len(src) {
+				fail = "an item's position lies outside the source"
+			}
+			if t.Typ == itemFieldCode && (len(t.Val) < 2 || t.Val[0] != '.') {
+				fail = "a field item is not a dot followed by a name"
+			}
+		}
 		for _, t := range toks {
 			v := sx.S(t.Val)
 			if t.Typ == itemErrorCode {
